@@ -157,7 +157,7 @@ func runStreams(e *actor.Engine, c peerCase) (any, error) {
 			}
 		}
 	}
-	for i := 0; i < 3000 && got.Load() < want && obs.Outcome == "ok"; i++ {
+	for i := 0; i < 30000 && got.Load() < want && obs.Outcome == "ok"; i++ {
 		time.Sleep(time.Millisecond)
 	}
 	if obs.Outcome == "ok" && got.Load() != want {
